@@ -123,6 +123,10 @@ def content_of(mode, n, variant=0):
 # ----------------------------------------------------------------------------------------------
 # C01 oracle: what a reference decoder must recover
 
+MODE_OF_INT = {1: 'numeric', 2: 'alphanumeric', 4: 'byte', 8: 'kanji', 13: 'hanzi'}
+INT_OF_MODE = {v: k for k, v in MODE_OF_INT.items()}
+
+
 def norm_parts(content, mode=None, encoding=None):
     """content -> list of (part_content, requested_mode, requested_encoding) following the documented API:
     str/bytes/int = one part; list/tuple = parts, each optionally (content, mode, encoding)."""
@@ -137,6 +141,8 @@ def norm_parts(content, mode=None, encoding=None):
                 m = item[1] or mode
             if len(item) > 2:
                 e = item[2] or encoding
+        if isinstance(m, int) and not isinstance(m, bool):
+            m = MODE_OF_INT.get(m, m)       # per-part modes are ISO mode indicator values (internal format)
         out.append((c, m, e))
     return out
 
